@@ -297,7 +297,7 @@ fn live_answer(sim: &Sim, env: &Env, i: usize, interval: u64) -> Option<(Proto, 
 
 /// The honest answer with some verifiable headers re-sealed around boundary values: the chain root check (and
 /// the Dummy PoW) still pass, the arithmetic behind them sees the numbers.
-fn reseal_live(bytes: &[u8], rng: &mut StdRng) -> Vec<u8> {
+fn reseal_live(bytes: &[u8], rng: &mut StdRng, reorg_hint: Option<(u64, u64)>) -> Vec<u8> {
     let msg = match packed::LightClientMessage::from_slice(bytes) {
         Ok(m) => m,
         Err(_) => return bytes.to_vec(),
@@ -310,6 +310,28 @@ fn reseal_live(bytes: &[u8], rng: &mut StdRng) -> Vec<u8> {
                 if !hs.is_empty() {
                     let j = rng.gen_range(0..hs.len());
                     hs[j] = resealed_keep_number(&hs[j], rng);
+                }
+            }
+            // now and then: a well-shaped "reorg section" (the last-N numbers below the requested start) whose
+            // headers carry a total difficulty that is not below the requested boundary
+            if let Some((start_number, last_n)) = reorg_hint {
+                if rng.gen_bool(0.5) && !hs.is_empty() && start_number >= 2 {
+                    hs.retain(|h| Unpack::<u64>::unpack(&h.header().raw().number()) >= start_number);
+                    if !hs.is_empty() {
+                        let td = c.last_header().parent_chain_root().total_difficulty();
+                        let lo = if start_number > last_n { start_number - last_n } else { 1 };
+                        let src = hs[0].clone();
+                        let mut forged_all = Vec::new();
+                        for n in lo..start_number {
+                            let raw = src.header().raw().as_builder().number(n.pack()).build();
+                            let header = src.header().as_builder().raw(raw).build();
+                            let root = src.parent_chain_root().as_builder().total_difficulty(td.clone()).build();
+                            let forged = src.clone().as_builder().header(header).parent_chain_root(root).build();
+                            forged_all.push(resealed(&forged, rng, 0));
+                        }
+                        forged_all.extend(hs.drain(..));
+                        hs = forged_all;
+                    }
                 }
             }
             let mut b = c.clone().as_builder().headers(packed::VerifiableHeaderVec::new_builder().set(hs).build());
@@ -516,11 +538,17 @@ fn scenario(rng: &mut StdRng, sc: usize, out: Box<dyn std::io::Write>, kv: &Hash
             env.connect(&mut sim, i);
         }
         // the base message
-        let (proto, base, bytes): (Proto, String, Vec<u8>) = match rng.gen_range(0..100) {
+        // (compat=1: the message mix before the extra-fields generator was added, to re-run older seeds)
+        let pick = rng.gen_range(0..100);
+        let pick = if pick == 95 && arg_u64(kv, "compat", 0) == 1 { 96 } else { pick };
+        let (proto, base, bytes): (Proto, String, Vec<u8>) = match pick {
             0..=44 => match live_answer(&sim, &env, i, interval) {
                 Some((p, name, b)) => {
                     if p == Proto::Lc && rng.gen_bool(0.4) {
-                        (p, format!("resealed-live:{}", name), reseal_live(&b, rng))
+                        let hint = sim.inbox.iter().filter(|s| s.peer == env.peers[i].idx).find_map(|s| sim::as_get_last_state_proof(s)).map(|r| {
+                            (Unpack::<u64>::unpack(&r.start_number()), Unpack::<u64>::unpack(&r.last_n_blocks()))
+                        });
+                        (p, format!("resealed-live:{}", name), reseal_live(&b, rng, hint))
                     } else {
                         (p, format!("live:{}", name), b)
                     }
